@@ -43,6 +43,25 @@ class FuncMixin:
             params = params[1:]
         if len(pos) > len(params) and fdef.args.vararg is None:
             raise EngineError(f"too many positional arguments for {fdef.name}")
+        if any(isinstance(a, tuple) and a and a[0] == "$star" for a in pos[:len(params)]):
+            raise EngineError(f"*args spread over named parameters in a call of {fdef.name}")
+        if fdef.args.vararg is not None:
+            extra = pos[len(params):]
+            if len(extra) == 1 and isinstance(extra[0], tuple) and extra[0][0] == "$star":
+                binding[fdef.args.vararg.arg] = extra[0][1]                 # f(*xs): the sequence itself
+            elif any(isinstance(a, tuple) and a and a[0] == "$star" for a in extra):
+                raise EngineError(f"mixed positional and *args in a call of {fdef.name}")
+            elif extra:
+                ev_ = [self.as_value(a) for a in extra]
+                et = ev_[0].t
+                for a in ev_[1:]:
+                    et = vals.join_type(et, a.t)
+                binding[fdef.args.vararg.arg] = vals.seq_from_list(et, [coerce(a, et) for a in ev_])
+            else:
+                binding[fdef.args.vararg.arg] = vals.empty_seq(NONE)
+            pos = pos[:len(params)]
+        if fdef.args.kwarg is not None and fdef.args.kwarg.arg not in binding:
+            binding[fdef.args.kwarg.arg] = next(iter(self.ev_Dict(ast.Dict(keys=[], values=[]), st)))[1]   # no **kwargs passed
         for p, a, n in zip(params, pos, pos_nodes):
             binding[p] = a
             nodes[p] = n
@@ -79,6 +98,10 @@ class FuncMixin:
                     out[a.arg] = self.ct.parse(a.annotation)
                 except EngineError:
                     pass
+        for a in (fdef.args.vararg, fdef.args.kwarg):
+            # *args / **kwargs take part only when the contract gives them a type (a list / a dict)
+            if a is not None and con is not None and a.arg in con.sig:
+                out[a.arg] = self.ct.parse(con.sig[a.arg])
         if con is not None:
             for g, ts in con.ghost.items():
                 out[g] = self.ct.parse(ts)
